@@ -24,6 +24,13 @@ def cases(tier, rng):
                      AND(C("n", X), OR(ng, U(X, i(3)))), AND(C("n", X), ng, ng), AND(ng, U(X, i(4))), AND(U(Y, i(1)), ng, C("n", Y))):
             rules = list(LIB) + [rule(cplx("a", X, Y), body), fact("a", i(9), i(9))]
             out.append((single_query_case(rules, [atom("a"), var(0, "$Q"), var(0, "$R")], 7), "not-shape"))
+    # double (and triple) negation: not(not(G)) succeeds iff G has an answer, and still leaves every binding as it was
+    for g in inner_goals():
+        nn = NOT(NOT(g))
+        for body in (nn, AND(nn, C("n", X)), AND(nn, U(X, i(4))), AND(C("n", X), nn), AND(nn, C("n", X), C("e", Y)), OR(nn, C("e", X)),
+                     NOT(nn), AND(NOT(nn), C("n", X)), AND(U(Y, i(1)), nn, C("n", Y))):
+            rules = list(LIB) + [rule(cplx("a", X, Y), body), fact("a", i(9), i(9))]
+            out.append((single_query_case(rules, [atom("a"), var(0, "$Q"), var(0, "$R")], 5), "not-not-shape"))
     n = 500 if tier == "quick" else 10000
     out += histgen.random_cases(rng, n, dict(allow_cut=False, allow_print=False), must="(op not")
     return out
@@ -31,7 +38,7 @@ def cases(tier, rng):
 RULE = ("(a) not(G) for 19 goals G (calls with 0/1/many answers, with and without bindings to query variables, "
         "conjunctions, disjunctions, unifications, comparisons, a recursive call, an unknown predicate) at 9 positions of "
         "a clause body (alone, after / before / between multi-answer goals, in a disjunction, twice, followed by a binding "
-        "of the same variable), each query asked 7 times; (b) random cut-free programs containing not(..). Oracle: every "
+        "of the same variable), each query asked 7 times; the same with not(not(G)) and not(not(not(G))); (b) random cut-free programs containing not(..). Oracle: every "
         "request's answer equals the reference search's - not(G) contributes the unchanged substitution once iff G has no "
         "answer. Non-trivial = the query has an answer that passed through a not(..).")
 
